@@ -49,6 +49,8 @@ FINE, COARSE = 1, 2  # map units per pixel of the two request resolutions
 RANGE_MIN_RES = 1.5  # `min_res` of resolution-limited sources / layers: fine requests are inside, coarse ones outside
 KEY_TOL = 5
 URL1, URL2 = 'http://up1.example/wms', 'http://up2.example/wms'
+URL_ERR = 'http://up-err.example/wms'      # answers 503: sources of kind 'err' (on_error maps it to a colour with alpha)
+ERR_ALPHA = 128
 
 
 # ---------------------------------------------------------------------------------------------
@@ -144,9 +146,11 @@ class World(object):
         sources = {}
         for s in self.sources.values():
             req = {'url': s['url'], 'layers': s['id']}
-            if s['kind'] in ('rgba', 'pal'):
+            if s['kind'] in ('rgba', 'pal', 'err'):
                 req['transparent'] = True
             c = {'type': 'wms', 'req': req}
+            if s['kind'] == 'err':
+                c['on_error'] = {503: {'response': '#%02x%02x%02x%02x' % (tuple(s['col']) + (ERR_ALPHA,)), 'cache': False}}
             image = {}
             if s['op'] != NONE:
                 image['opacity'] = s['op'] / 100.0
@@ -217,6 +221,7 @@ def base_world(tier, cov_type='polygon'):
     add('rgba', NONE, 'none', False, suffix='v', url=URL2)
     add('opq', 0, 'none', False)
     add('rgba', 25, 'none', False)
+    add('err', NONE, 'none', False, url=URL_ERR)
     add('opq', NONE, 'none', False, suffix='s', ssrs=True)
     add('rgba', NONE, 'none', False, suffix='s', ssrs=True)
     # resolution ranges: on the source, on the layer, and on one source of a two-source layer
@@ -235,7 +240,7 @@ def base_world(tier, cov_type='polygon'):
     # a layer that uses the source of another layer again: requested together, the combined upstream request names an
     # upstream layer twice (r_n_x,r_n_x2,r_n_x) - the order and the repetition are part of the picture
     layers['ms4'] = {'name': 'ms4', 'srcs': [layers['r_n_x']['srcs'][0], layers['r_n_x2']['srcs'][0]], 'rng': 'none'}
-    reduced = ['o_n_x', 'o_n_x2', 'o_50_x', 'o_n_c', 'o_n_u', 'r_n_x', 'r_50_x', 'r_n_c', 'k_n_x', 'p_n_u', 'ms1', 'r_n_xs', 'ms4']
+    reduced = ['o_n_x', 'o_n_x2', 'o_50_x', 'o_n_c', 'o_n_u', 'r_n_x', 'r_50_x', 'r_n_c', 'k_n_x', 'p_n_u', 'ms1', 'r_n_xs', 'ms4', 'e_n_x']
     if tier == 'thorough':
         reduced += ['r_n_x2', 'r_50_u', 'o_n_xf', 'o_n_xv', 'k_50_c', 'o_0_x']
     if cov_type == 'bbox':
@@ -297,6 +302,8 @@ class Service(object):
         srcs = [self.world.sources[n] for n in names]
         self.log.append({'ls': names, 'tr': tr, 'bbox': bbox, 'size': size, 'url_ok': all(s['url'] == base for s in srcs),
                          'srs': q.get('srs'), 'format': q.get('format')})
+        if any(s['kind'] == 'err' for s in srcs):
+            raise self._H.HTTPClientError('upstream error', response_code=503)
         cm, _, _ = self.content_map(bbox, size)
         px = [upstream_px(srcs, tr, c) for c in CONTENTS]
         if tr and all(s['kind'] == 'pal' for s in srcs):
